@@ -390,4 +390,4 @@ def build_and_run_f(d, cases, with_class=True, nvals=4, options=None, extra_argv
             sig = f_sig(c, tt, nsup)
             label = "%s [%s]" % (tg, name)
         traces.append({"sig": sig, "events": ev, "label": label})
-    return {"traces": traces, "problems": problems, "yaml": y, "members": cgen.member_trace(events) if with_class else []}
+    return {"traces": traces, "problems": problems, "yaml": y, "members": cgen.member_trace(events, out=out) if with_class else []}
